@@ -80,6 +80,8 @@ pub struct Fx {
     pub tcp_target_port: u16,
     pub closed_port: u16,
     pub udp_target_port: u16,
+    /// a second UDP service on the same hosts, different port, different tag
+    pub udp_target2_port: u16,
     pub lp_tcp: u16,
     pub uds: PathBuf,
     pub socks_port: u16,
@@ -227,7 +229,19 @@ async fn build_fixture() -> Result<Fx, String> {
         }
         found.ok_or("no udp port free on both families")?
     };
-    for s in [u4, u6] {
+    let (v4b, v6b, uport2) = {
+        let mut found = None;
+        for _ in 0..50 {
+            let s4 = UdpSocket::bind("127.0.0.1:0").await.map_err(|e| e.to_string())?;
+            let p = s4.local_addr().unwrap().port();
+            if let Ok(s6) = UdpSocket::bind(("::1", p)).await {
+                found = Some((s4, s6, p));
+                break;
+            }
+        }
+        found.ok_or("no udp port free on both families")?
+    };
+    for (s, tag) in [(u4, b'R'), (u6, b'R'), (v4b, b'S'), (v6b, b'S')] {
         tokio::spawn(async move {
             let mut buf = vec![0u8; 70000];
             loop {
@@ -236,7 +250,7 @@ async fn build_fixture() -> Result<Fx, String> {
                 // number of replies is encoded in the last byte (0..=3); empty datagrams get one reply
                 let copies = data.last().map(|b| b & 3).unwrap_or(1);
                 for k in 0..copies {
-                    let mut r = vec![b'R', b'0' + k, b':'];
+                    let mut r = vec![tag, b'0' + k, b':'];
                     r.extend_from_slice(&data);
                     s.send_to(&r, from).await.ok();
                 }
@@ -290,7 +304,7 @@ async fn build_fixture() -> Result<Fx, String> {
         }
         tokio::time::sleep(Duration::from_millis(10)).await;
     }
-    Ok(Fx { tcp_target_port: tport, closed_port, udp_target_port: uport, lp_tcp, uds, socks_port, http_port, lp_udp, registry })
+    Ok(Fx { tcp_target_port: tport, closed_port, udp_target_port: uport, udp_target2_port: uport2, lp_tcp, uds, socks_port, http_port, lp_udp, registry })
 }
 
 pub fn fx() -> Result<&'static Fx, String> {
@@ -582,6 +596,9 @@ pub struct UdpClient {
     pub sizes: Vec<u32>,
     /// replies requested per datagram (0..=3)
     pub replies: u8,
+    /// SOCKS5 only: which of the two UDP services each datagram is addressed to (index modulo length; empty = always the first)
+    #[serde(default)]
+    pub targets: Vec<u8>,
 }
 
 #[derive(Clone, Debug, Hash, PartialEq, Eq, Serialize, Deserialize)]
@@ -626,13 +643,15 @@ async fn run_udp_client(f: &'static Fx, idx: usize, c: UdpClient) -> Result<(), 
             data[l] = (data[l] & !3) | (c.replies & 3);
             c.replies & 3
         } as usize;
+        let second = c.socks5 && !c.targets.is_empty() && c.targets[k % c.targets.len()] % 2 == 1;
+        let (tport, ttag) = if second { (f.udp_target2_port, b'S') } else { (f.udp_target_port, b'R') };
         let wire = if c.socks5 {
             let addr = match c.atyp {
                 0 => rs::Addr5::V4([127, 0, 0, 1]),
                 1 => rs::Addr5::Domain(b"localhost".to_vec()),
                 _ => rs::Addr5::V6(std::net::Ipv6Addr::LOCALHOST.octets()),
             };
-            rs::udp_datagram([0, 0], 0, &addr, f.udp_target_port, &data)
+            rs::udp_datagram([0, 0], 0, &addr, tport, &data)
         } else {
             data.clone()
         };
@@ -670,7 +689,7 @@ async fn run_udp_client(f: &'static Fx, idx: usize, c: UdpClient) -> Result<(), 
                 } else {
                     buf[..n].to_vec()
                 };
-                if body.len() < 3 || body[0] != b'R' || body[2] != b':' {
+                if body.len() < 3 || !(body[0] == b'R' || body[0] == b'S') || body[2] != b':' {
                     return Err(e("c01-udp-corrupt", format!("reply payload {:02x?}.. is not what the target sent", &body[..body.len().min(16)])));
                 }
                 let inner = &body[3..];
@@ -687,6 +706,9 @@ async fn run_udp_client(f: &'static Fx, idx: usize, c: UdpClient) -> Result<(), 
                         continue; // too short to attribute; may belong to an earlier retry
                     }
                     return Err(e("c01-udp-corrupt", format!("datagram {k}: reply payload differs from what was sent ({} vs {} bytes)", inner.len(), data.len())));
+                }
+                if body[0] != ttag {
+                    return Err(e("c01-udp-wrong-target", format!("datagram {k} was addressed to the UDP service on port {tport} but the reply comes from the other service (tag {:?}): the datagram reached the wrong target", body[0] as char)));
                 }
                 let copy = (body[1] - b'0') as usize;
                 if copy >= copies {
@@ -769,7 +791,7 @@ fn conn() -> impl Strategy<Value = Conn> {
 
 pub fn run(ctx: &Ctx, rep: &mut Report) {
     rep.rule = "one real client (client_main_inner) and one real server (run_listener) on loopback with remotes for every entry kind. TCP cases = 1-8 concurrent connections, each: entry {fixed TCP remote, Unix-socket remote, SOCKS4, SOCKS4a by name, SOCKS5 IPv4/domain/IPv6, HTTP CONNECT} x payload sizes each way 0..3 MB in generated chunkings/flushes x close order {client half-close first, target half-close first, simultaneous, target reset, target port closed}; \
-                content is a function of (connection token, direction, offset). UDP cases = 1-6 concurrent local sockets (plain UDP remote or SOCKS5 association with IPv4/domain/IPv6 target addresses), datagram sizes {0,1,2,3,4,512,1400,8000,60000}, target replying 0-3 tagged copies. \
+                content is a function of (connection token, direction, offset). UDP cases = 1-6 concurrent local sockets (plain UDP remote or SOCKS5 association with IPv4/domain/IPv6 target addresses, one association addressing two UDP services on the same host), datagram sizes {0,1,2,3,4,512,1400,8000,60000}, target replying 0-3 tagged copies. \
                 Oracle: both directions byte-exact and complete with EOF propagated in each close order, closed (not hanging) on target reset/refusal (20 s limit, hang verdicts confirmed by a re-run); UDP replies only on the socket of the originating client, from the address it sent to, payload unmodified, no duplicates, SOCKS5 replies prefixed by a header an independent RFC 1928 parser accepts; \
                 loss tolerated only after three failed exchanges. Non-trivial = bidirectional traffic with a half-close, or >= 2 concurrent clients, or a UDP payload < 4 bytes. Distinct = distinct case value."
         .into();
@@ -798,7 +820,7 @@ pub fn run(ctx: &Ctx, rep: &mut Report) {
         ctx.tier.pick(480, 10_000),
         20,
         || {
-            let client = (any::<bool>(), 0u8..3, prop::collection::vec(prop::sample::select(vec![0u32, 1, 2, 3, 4, 7, 512, 1400, 8000, 60_000]), 1..5), 0u8..4).prop_map(|(socks5, atyp, sizes, replies)| UdpClient { socks5, atyp, sizes, replies });
+            let client = (any::<bool>(), 0u8..3, prop::collection::vec(prop::sample::select(vec![0u32, 1, 2, 3, 4, 7, 512, 1400, 8000, 60_000]), 1..5), 0u8..4, prop::collection::vec(0u8..2, 0..4)).prop_map(|(socks5, atyp, sizes, replies, targets)| UdpClient { socks5, atyp, sizes, replies, targets });
             prop::collection::vec(client, 1..=6).prop_map(|clients| UdpCase { clients })
         },
         check_udp,
